@@ -583,6 +583,46 @@ theorem e2_optpeer_refuted :
   revert this
   decide
 
+/-- Executable form of `T2`. -/
+def t2Check (st : State) : Bool :=
+  st.edges.all fun e => st.tree.static.any fun f => f.id == e.src &&
+    st.tree.static.any fun t => t.id == e.dst &&
+      decide (lookupUp st.tree.keys (effName e.imp) f.path = some t.path)
+
+theorem t2Check_of_T2 {st : State} (h : T2 st) : t2Check st = true := by
+  unfold t2Check
+  rw [List.all_eq_true]
+  intro e he
+  obtain ⟨f, t, hf, ht, h1, h2, h3⟩ := h e he
+  rw [List.any_eq_true]
+  refine ⟨f, hf, ?_⟩
+  simp only [Bool.and_eq_true, beq_iff_eq, List.any_eq_true, decide_eq_true_eq]
+  exact ⟨h1, t, ht, h2, h3⟩
+
+/-- `g@1.0.0-0 {@s/b: npm:k@>=1.0.0}`, `k@1.0.0 {@s/b@1.0.1, g: npm:f@*}`, `@s/b@1.0.1 {g@~1.0.0-0}`,
+`f@0.1.0`. Names: 5 `0.1.0`, 6 `1.0.0`, 7 `1.0.0-0`, 8 `1.0.1`, 9 `>=1.0.0`, 10 `@s/b`, 11 `f`,
+12 `g`, 13 `k`, 14 `~1.0.0-0`. -/
+def t2AliasU : Universe where
+  versions := [(ver 10 8, [⟨12, 14, reg⟩]), (ver 11 5, []), (ver 12 7, [⟨13, 9, ⟨0, [(8, 10)]⟩⟩]),
+    (ver 13 6, [⟨10, 8, reg⟩, ⟨11, 1, ⟨0, [(8, 12)]⟩⟩])]
+  matching := [((10, 4), some []), ((12, 14), some [ver 12 7]), ((11, 4), some []), ((12, 4), some []),
+    ((13, 9), some [ver 13 6]), ((13, 4), some []), ((10, 8), some [ver 10 8]), ((11, 1), some [ver 11 5])]
+  semver := [(14, some [8, 7, 6]), (9, some [8, 6]), (8, some [8]), (1, some [8, 5, 6])]
+
+/-- With aliases T2 is false: `k` (installed as `@s/b`) resolves its dependency `g: npm:f@*`
+to the alias slot `g` of the root; hoisting past `k` marked the *package* name `f` as
+protected there, not the alias `g`, so the later install of the real `g@1.0.0-0` lands in
+`k`'s own `node_modules` and shadows it: Node's lookup of `g` from `k` finds `g@1.0.0-0`,
+the edge points to `f@0.1.0`. -/
+theorem t2_alias_refuted :
+    ¬ ∀ (u : Universe) (rn rv : Name) (fuel : Nat) (st : State),
+      WF u → Finishes u rn rv fuel st → T2 st := by
+  intro h
+  have h1 : Finishes t2AliasU 12 7 10 (finalState t2AliasU 12 7 10) := by decide
+  have := t2Check_of_T2 (h t2AliasU 12 7 10 _ (by decide) h1)
+  revert this
+  decide
+
 /-! ## Non-termination with aliases (F-C04-npm-alias-cycle) -/
 
 /-- On `c@2.0.0 {alias1: npm:b@^1.0.0}`, `b@1.1.0 {alias1: npm:c@^2.0.0}` (a well-formed
